@@ -24,6 +24,9 @@ class Env:
     def now_us(self):
         return self.t
 
+    def now_s(self):
+        return self.t / 1e6
+
     def notifier_init(self):
         self.inits += 1
         return (7, 0)
@@ -76,6 +79,25 @@ def path(c, job):
         c.reach("reject")
         c.prove("C16.reject period-below-1ms-raises", ok)
         return
+    if kind == "eng":
+        # concrete companion run (no solver): typical decimal periods and start times in ordinary float arithmetic,
+        # 25 waits with idle bodies - the grid must be hit to the microsecond (reals-for-floats is the stated limit of
+        # the symbolic jobs; this run only guards against drift introduced by float bookkeeping)
+        for P in (0.02, 0.005, 0.001, 0.0125, 0.05, 0.1, 0.0205):
+            for t0 in (0, 5000000, 1234567):
+                env2 = Env.__new__(Env)
+                env2.c, env2.t, env2.alarm, env2.stopped, env2.cleaned, env2.waits, env2.inits, env2.updates = c, t0, None, 0, 0, 0, 0, []
+                wpilib.ENV = env2
+                nd = pd.NotifierDelay(P)
+                Pus = int(P * 1e6)
+                ok = True
+                for k in range(1, 26):
+                    nd.wait()
+                    ok = ok and env2.t == t0 + k * Pus
+                c.reach("engineering-values")
+                c.prove("C16.eng grid-exact-for-typical-periods", ok, info=dict(P=P, t0=t0, t_end=env2.t))
+                nd.free()
+        return
     if kind == "step":
         # Layer B: one wait() from an arbitrary state satisfying the invariant expiry == G + Pus (G a grid point)
         Pus = c.integer("Pus", 1000, 10 ** 8)
@@ -113,7 +135,15 @@ def path(c, job):
         env.t = env.t + b
         before = env.t
         if free_at == k:
-            if use_with:
+            if use_with and job.get("raise_in_with"):
+                # the with-block is left by an exception raised in the loop body
+                c.reach("with-left-by-exception")
+                try:
+                    with nd:
+                        raise KeyError("loop body failed")
+                except KeyError:
+                    pass
+            elif use_with:
                 with nd:
                     pass
             else:
@@ -137,7 +167,7 @@ def path(c, job):
 class C16(Spec):
     id = "C16"
     design_ref = "DESIGN.md §7 C16"
-    clauses = ["C16.grid not-early", "C16.grid exact", "C16.grid alarm", "C16.free", "C16.step", "C16.reject"]
+    clauses = ["C16.grid not-early", "C16.grid exact", "C16.grid alarm", "C16.free", "C16.step", "C16.reject", "C16.eng"]
     stubs = ["hal notifier: waitForNotifierAlarm(handle) returns at max(now, alarm time last programmed); after stop/clean nothing blocks",
              "wpilib.RobotController.getFPGATime: symbolic integer microseconds",
              "builtin int() shadowed inside robotpy_ext.misc.precise_delay by truncation on terms"]
@@ -146,18 +176,19 @@ class C16(Spec):
                "more than K waits for the from-creation clauses (the inductive step C16.step covers any number of waits under the invariant expiry = grid point + period)"]
 
     def jobs(self, tier):
-        K = 6 if tier == "quick" else 12
+        K = 6 if tier == "quick" else 15
         j = [dict(kind="run", K=K), dict(kind="step"), dict(kind="reject"), dict(kind="run", K=min(K, 4), enter_gap=True),
              dict(kind="run", K=3, enter_gap=True, free_at=3, with_block=True)]
         j += [dict(kind="run", K=K, free_at=f, with_block=(f % 2 == 0)) for f in (1, 2, K)]
+        j += [dict(kind="run", K=3, free_at=2, with_block=True, raise_in_with=True), dict(kind="eng")]
         return j
 
     def bounds(self, tier):
-        return dict(waits=6 if tier == "quick" else 12, period="symbolic real in [0.001, 100] s", body="symbolic integer us in [0, 1e9] per iteration",
+        return dict(waits=6 if tier == "quick" else 15, period="symbolic real in [0.001, 100] s", body="symbolic integer us in [0, 1e9] per iteration",
                     inductive_step="one wait() from any state with expiry = G + P")
 
     def reach_required(self, tier):
-        return ["wait", "freed", "inductive-step", "reject", "entered-late"]
+        return ["wait", "freed", "inductive-step", "reject", "entered-late", "with-left-by-exception", "engineering-values"]
 
     def path_fn(self, c, job):
         path(c, job)
